@@ -306,6 +306,38 @@ DIRECTED = [
 ]
 
 
+
+def store_case(rng, hm, size, length, universe):
+    """storage-layer script: Put / Get / Remove / EnsureSize on one Hashtable<int,int>; the whole slot array is compared"""
+    ops = []
+    present = set()
+    for _ in range(length):
+        x = rng.random()
+        if x < 0.55 or not present:
+            k = rng.randrange(universe); ops.append("sp:%d:%d" % (k, rng.randrange(100))); present.add(k)
+        elif x < 0.80:
+            k = rng.choice(sorted(present)) if rng.random() < 0.85 else rng.randrange(universe)
+            ops.append("sr:%d" % k); present.discard(k)
+        elif x < 0.95:
+            ops.append("sg:%d" % rng.randrange(universe))
+        else:
+            ops.append("se:%d" % rng.choice([0, 3, 8, 15, 20, 33, len(present) * 2 + 1]))
+    return "S%d,%d|%s" % (hm, size, ";".join(ops))
+
+
+def store_width_case(rng, hm):
+    """fills past 255 slots (index width uint8 -> uint16, several reallocations), removes half, fills again"""
+    n = rng.choice([260, 300, 330])
+    keys = list(range(n)); rng.shuffle(keys)
+    ops = ["sp:%d:%d" % (k, k % 97) for k in keys]
+    ops += ["sr:%d" % k for k in keys[::2]]
+    ops += ["sg:%d" % k for k in keys[:6]]
+    ops += ["sp:%d:%d" % (k + 1000, 1) for k in keys[:40]]
+    if rng.random() < 0.5:
+        ops.insert(rng.randrange(len(ops)), "se:%d" % rng.choice([254, 255, 256, 600]))
+    return "S%d,%d|%s" % (hm, rng.choice([0, 200, 254, 255]), ";".join(ops))
+
+
 class CHECK(vlib.Check):
     prop = "C09"
     prop_file = "Properties_C09.v"
@@ -323,7 +355,7 @@ class CHECK(vlib.Check):
                 "invariant for every operation, iterator safety, refinement L1 = L0 with equal results for every operation and all three classes, "
                 "traversal no-skip / no-duplicate / completeness for every interleaving whose mutations do not reorder the iterator's table, liveness of "
                 "the shown entry and termination under any mutations, sorted order of the auto-sorting classes.  Effect level: SortByEntry "
-                "(stable sort + relink), Clear's entry loop.  Not modelled (corresponded + harness oracle only): bucket chains, _mapTo/_mappedFrom, "
+                "(stable sort + relink); Clear is modelled by its effect and the literal RemoveEntryByIndex loop is proved to have that effect (HtClear.v).  Not modelled (corresponded + harness oracle only): bucket chains, _mapTo/_mappedFrom, "
                 "free list, 8/16/32-bit index width, reallocation and the iterator re-pointing in EnsureSize, hash functors, thread-id bookkeeping "
                 "of iterator registration.")
     premises = ["memory safety and object lifetime of the C++ (observed by ASan/UBSan in the harness only)",
@@ -359,12 +391,18 @@ class CHECK(vlib.Check):
             out.append(("parked", parked_case(rng, "PKV"[i % 3], 1 if rng.random() < 0.3 else 0)))
         for i in range(4 if tier == "quick" else 12):
             out.append(("grow", grow_case(rng, "PKV"[i % 3], 1 if i % 4 == 3 else 0, rng.choice([260, 300, 470]))))
+        for i in range(150 if tier == "quick" else 1500):
+            out.append(("store", store_case(rng, i % 3, rng.choice([0, 0, 3, 10, 16]), rng.choice([10, 25, 45, 80]), rng.choice([6, 12, 30, 60]))))
+        for i in range(2 if tier == "quick" else 6):
+            out.append(("store-width", store_width_case(rng, (0, 2, 1)[i % 3] if i % 3 != 2 or tier != "quick" else 0)))
         for i in range(1 if tier == "quick" else 3):
             out.append(("big", big_case(rng, "PKV"[i % 3], 1 if i == 4 else 0)))
         return out
 
     def nontrivial(self, case):
         body = case.split("|", 1)[1]
+        if case.startswith("S"):
+            return "sr:" in body and body.count("sp:") >= 3
         if "fill:" in body or ":254:" in body or ":65535:" in body:
             return True
         ops = body.split(";")
